@@ -210,7 +210,7 @@ def bareLine (l : List Char) : Bool :=
   | (c :: _) :: _ => c.isDigit || c == '.' || c == '-' || c == '='
   | [] :: _ => true
 
-/-! ### comment-aware lexer (SHELXL: everything behind '!' is ignored; `REM` lines are never continued; a line that
+/-! ### comment-aware lexer (SHELXL: everything behind '!' is ignored; `REM` lines are never continued -- except DSR commands, `isDsr` --; a line that
     begins with a blank and does not continue an instruction is a comment line) -/
 
 /-- the part of a physical line in front of the first '!' -/
@@ -218,8 +218,18 @@ def code (pl : List Char) : List Char := pl.takeWhile (· ≠ '!')
 
 def isRem (pl : List Char) : Bool := (pl.take 3).map Char.toUpper == ['R', 'E', 'M']
 
-/-- the physical line is continued on the next one -/
-def flaggedC (pl : List Char) : Bool := !isRem pl && flagged (code pl)
+/-- a DSR command: `REM DSR PUT …` / `REM DSR REPLACE …` (any case). DSR, the fragment-fitting program, writes its command
+    as a remark and -- unlike an ordinary remark, in which a '=' at the end is text -- continues it with ' =' like an
+    instruction; a reader of res files that knows DSR joins these lines. Recognised on the FIRST physical line: `REM` at
+    column 1, then the tokens `DSR` and `PUT…`/`REPLACE…`. -/
+def isDsr (pl : List Char) : Bool :=
+  match (tokens (code pl)).map (·.map Char.toUpper) with
+  | r :: d :: c :: _ => isRem pl && r == ['R', 'E', 'M'] && d == ['D', 'S', 'R'] &&
+      (c.take 3 == ['P', 'U', 'T'] || c.take 7 == ['R', 'E', 'P', 'L', 'A', 'C', 'E'])
+  | _ => false
+
+/-- the physical line is continued on the next one (an ordinary `REM` never is; a DSR command is) -/
+def flaggedC (pl : List Char) : Bool := (!isRem pl || isDsr pl) && flagged (code pl)
 
 def allBlank (pl : List Char) : Bool := pl.all (· == ' ')
 
@@ -303,7 +313,7 @@ def lineClasses : Bool → List (List Char) → List (String × List Char)
   | _, [] => []
   | inside, pl :: rest =>
     let c := lineClass inside pl (logicalCode pl rest)
-    let next := (inside || !(c == "comment" || c == "blank")) && flaggedC pl
+    let next := (inside || !(c == "comment" || c == "blank") || isDsr pl) && flaggedC pl
     (c, pl) :: lineClasses next rest
 
 end Shelx.C06
